@@ -3,3 +3,4 @@ import BlackIt.Lemmas.Snap
 import BlackIt.Properties.C17
 import BlackIt.Properties.C15
 import BlackIt.Properties.C12
+import BlackIt.Properties.C19
